@@ -27,16 +27,25 @@ for f in kf:
         rows.append(f"| `{f['id']}` | {f['property']} | {str(f.get('call',''))[:120]} ; witness `{json.dumps(f.get('witness'))[:140]}` | {f['symptom'][:260].replace('|','/')} | {f.get('why_open','see §5 ' + f['property'])} |")
 s = block("open", "\n".join(rows), s)
 # seeds
-rows = ["| seed | property | what it changes | needs to manifest | detected by | how |", "|---|---|---|---|---|---|"]
-det = tot = 0
+rows = ["| seed | property | what it changes | needs to manifest | detected by | how | at current HEAD |", "|---|---|---|---|---|---|---|"]
+det = tot = now = 0
 for f in sorted(glob.glob(str(V / "seeded/*/meta.json"))):
     m = json.load(open(f)); name = pathlib.Path(f).parent.name
     tot += 1; det += bool(m["detected"])
     hits = [r for r in m["checks_run_with_patch_applied"] if r["rc"] == 1]
     by = ", ".join(r["check"].split()[1] for r in hits) or "MISSED"
     how = "; ".join(sorted({(r["finding"] or {}).get("kind", "?") for r in hits}))
-    rows.append(f"| `{name}` | {m['property']} | {(m.get('summary') or '')[:170].replace('|','/')} | {(m.get('needs_to_manifest') or '')[:150].replace('|','/')} | {by} | {how} |")
-rows.append(f"\n{det} of {tot} seeded changes are reported by the quick tier of the check of the property they break.")
+    rv = m.get("revalidated") or {}
+    if rv.get("detected"):
+        now += 1
+        cur = "detected (" + ", ".join(r["check"].split()[1] for r in rv["checks"] if r["rc"] == 1) + ("; patch rebased" if rv.get("patch") != "applies" or "rebased" in (m.get("note") or "") else "") + ")"
+    elif rv:
+        cur = "no longer a defect: " + (m.get("note") or "?")[:110]
+    else:
+        cur = "-"
+    rows.append(f"| `{name}` | {m['property']} | {(m.get('summary') or '')[:170].replace('|','/')} | {(m.get('needs_to_manifest') or '')[:150].replace('|','/')} | {by} | {how} | {cur} |")
+rows.append(f"\n{det} of {tot} seeded changes were reported by a quick check when they were kept; `tools/revalidate_seeds.py` re-ran all of them against the "
+            f"current /repo HEAD and the current checks: {now} are reported, the other {tot - now} are no longer defects of the current tree (see their `note`).")
 s = block("seeds", "\n".join(rows), s)
 # status
 rows = ["| property | theorems audited (obligations = discharged) | evaluations (quick) | distinct non-trivial | tie comparisons | wall (s) |", "|---|---|---|---|---|---|"]
